@@ -7,9 +7,8 @@ Reading guide
 * `FrontsSpec pop k fronts` is C04's specification of what a sorting back-end answers for `(pop, k)`:
   front by front (up to the order inside a front) the leading fronts of the Pareto ranking needed to
   reach `k`.  Every theorem about the selection is stated for **any** `fronts` with `FrontsSpec`
-  (back-end agnostic); `selNSGA2_standard` instantiates it with the quadratic sort (proved in C04),
-  `selNSGA2_log_partial` with the log-time sort under the hypothesis that its answer meets the spec
-  (established per run by C04's certificate checker).
+  (back-end agnostic); `selNSGA2_standard` instantiates it with the quadratic sort and `selNSGA2_log`
+  with the log-time sort (both proved correct in C04).
 * `selFromFronts weights fronts k` is emo.py:41-50; distances are `Option α`, `none` = `inf`.
 -/
 import DeapModel.Lemmas.C05Cut
@@ -118,14 +117,28 @@ example : exPop ≠ [] ∧ (∀ x ∈ exPop, x.w.length = 2) ∧
   simp [selNSGA2, h, selFromFronts, cutWith, assignCrowdingDist, objStep, sortCrowd, sortByDistDesc, values,
     List.range, List.range.loop, List.zipIdx]
 
-/-- **log-time back-end (partial).**  `selNSGA2(pop, k, nd='log')` is the same cut applied to the
-answer of `sortLogNondominated`; whenever that answer meets the specification (which C04's
-certificate checker establishes on every run of the real code) all theorems above apply.  Missing
-for a full statement: `C04.sortLog_eq_sortStd_Statement`. -/
+/-- **log-time back-end (unfolding).**  `selNSGA2(pop, k, nd='log')` is the same cut applied to the
+answer of `sortLogNondominated`. -/
 theorem selNSGA2_log_partial (weights : List α) (pop : List (Ind α)) (k : Nat)
     (fronts : List (List (Ind α))) (h : sortLog pop k = some fronts) :
     selNSGA2 weights pop k true = some (selFromFronts weights fronts k) := by
   simp [selNSGA2, h]
+
+example : sortLog ([⟨0, [1, 2]⟩, ⟨1, [0, 0]⟩] : List (Ind ℚ)) 2 = some [[⟨0, [1, 2]⟩], [⟨1, [0, 0]⟩]] := by
+  simp [sortLog, logRanks, dset, dget, dkeys, dvalues, helperA, logFronts, logTruncate, logTruncate.go,
+    List.modify, List.mergeSort, Py.tupleLt, isDominated, isDominatedLoop, bump]
+
+/-- **log-time back-end.**  With at least two objectives `selNSGA2(pop, k, nd='log')` is the cut
+applied to fronts that meet the specification (C04.sortLog_eq_peel), so all theorems above apply to
+it as well: both back-ends give a selection satisfying the same contract. -/
+theorem selNSGA2_log (weights : List α) (pop : List (Ind α)) (hne : pop ≠ []) (m : Nat) (hm : 2 ≤ m)
+    (hlen : ∀ x ∈ pop, x.w.length = m) (k : Nat) :
+    ∃ fronts, FrontsSpec pop k fronts ∧
+      selNSGA2 weights pop k true = some (selFromFronts weights fronts k) := by
+  obtain ⟨fronts, h1, h2⟩ := C04.sortLog_eq_peel pop m hm hne hlen k
+  exact ⟨fronts, h2, by simp [selNSGA2, h1]⟩
+
+example : exPop ≠ [] ∧ (2 : Nat) ≤ 2 ∧ (∀ x ∈ exPop, x.w.length = 2) := by decide
 
 /-- **back-end agnostic contract**, in one statement: for any fronts meeting C04's specification the
 selection has `min k n` members, is a sub-permutation of the input without repetition, and leaves
